@@ -22,12 +22,14 @@ ASSUMPTIONS = [
 REQUIRED_COUNTERS = ["convert_calls"]
 CPU_LIMIT = 20.0
 
-INSERT_POOL = ["(", ")", ",", ":", '"', "&H", ".", "-", "+", "NOT", "THEN", "ELSE", "E", "1E99", "$", "=", ";", "@", "TO",
+INSERT_POOL = ["=<", "=>", "><", "(", ")", ",", ":", '"', "&H", ".", "-", "+", "NOT", "THEN", "ELSE", "E", "1E99", "$", "=", ";", "@", "TO",
                "&HFFFFFF", "123456789012345678901234567890", "1E-99", "..", "- -", "&H", "IF", "NEXT", "FOR", "DATA", "'",
                "REM", "GOTO", "99999", "0", "^", "*", "/", "<>", "A$", "X(", "STRING$", "INKEY$", "HCIRCLE", "PRINT", "?",
                "\x00", "\t", "é"]
 
 EXTREME = [
+    "10 IF A=<B THEN 10", "10 IF A=>B THEN 10", "10 IF A$=<\"X\" THEN 10", "10 IF A$=>B$ THEN 10 ELSE 10", "10 IF A<>B AND A=<1 OR B=>2 THEN 10",
+    "10 IF A><B THEN 10", "10 A=B=<C", "10 IF A==B THEN 10", "10 IF A<=>B THEN 10",
     "10 A=.", "10 A=1E99", "10 A=1E999", "10 A=-1E-99", "10 A=123456789012345678901234567890123456789",
     "10 A=&HFFFFFF", "10 A=&H", "10 A=& H", "10 A=&HG", "10 A=1.2.3", "10 A=1E", "10 A=1E+", "10 A=.E5", "10 A=- - - 5",
     "10 A=--5", "10 DIM A(&HFFFFFF)", "10 DIM A(99999999)", "10 DIM A(0)", "10 DIM A(1,2,3,4)", "10 DATA ,&HFF",
